@@ -59,6 +59,8 @@ GPFCorrection& GPFCorrection::operator=(GPFCorrection&& correction) noexcept
 {
     PFCorrection::operator=(std::move(correction));
 
+    likelihood_model_ = std::move(correction.likelihood_model_);
+
     gaussian_correction_ = std::move(correction.gaussian_correction_);
 
     state_model_ = std::move(correction.state_model_);
